@@ -429,9 +429,9 @@ impl StakeScen {
         let probes: Vec<&Addr> = self.pool.iter().take(2).collect();
         let member_keys: Vec<Vec<u8>> = probes.iter().map(|a| cw4::member_key(a.as_str())).collect();
         let primary_keys: Vec<Vec<u8>> = probes.iter().map(|a| cw4_stake::state::MEMBERS.key(*a).to_vec()).collect();
-        let rawkeys = crate::scen_cw4group::render_raw_keys(&raw.data, &member_keys, &primary_keys);
+        let (rawkeys, rawextra) = crate::scen_cw4group::render_raw_keys(&raw.data, &member_keys, &primary_keys);
         format!(
-            "obs pagediff={} denom={} stake={} claims={} member={} hist={} members={} total={} admin={} hooks={} rawmember={} rawtotal={} held={} bal={} fheld={} cfg={} hs={} mlog={} rawkeys={}",
+            "obs pagediff={} denom={} stake={} claims={} member={} hist={} members={} total={} admin={} hooks={} rawmember={} rawtotal={} held={} bal={} fheld={} cfg={} hs={} mlog={} rawkeys={} rawextra={}",
             pagediff,
             denom,
             stake.join(","),
@@ -450,7 +450,8 @@ impl StakeScen {
             cfg,
             hrec.join(","),
             mlog.join(","),
-            rawkeys
+            rawkeys,
+            rawextra
         )
     }
 
